@@ -225,7 +225,10 @@ def run_impl(columns, values, system, kw=None, int_cols=(), cwd_dir: Optional[st
                 os.chdir(tmp)
             if user_file:
                 src = os.path.join(REPO, "cij", "data", "constraints", system)
-                arg = os.path.join(tmp, "my_relations.txt")
+                # user_file=True: a file with a name of its own; user_file="dir/name": that relative path under the scratch
+                # directory (e.g. a file NAMED like another packaged system inside a sub-directory) — the content is what counts
+                arg = os.path.join(tmp, "my_relations.txt" if user_file is True else user_file)
+                os.makedirs(os.path.dirname(arg), exist_ok=True)
                 shutil.copyfile(src, arg)
         try:
             out = fill_cij(df, arg, **kw)
